@@ -47,6 +47,17 @@ impl<'a> Shrinker<'a> {
                 cur = c;
             }
         }
+        // explicit call history: drop earlier calls one by one
+        let mut k = 0;
+        while k < cur.pre.len() {
+            let mut c = cur.clone();
+            c.pre.remove(k);
+            if self.try_one(&c, pred) {
+                cur = c;
+            } else {
+                k += 1;
+            }
+        }
         // steering entries
         let mut k = 0;
         while k < cur.steer.len() {
